@@ -535,10 +535,12 @@ def stepSetAttr (s : State) (h o : Nat) (tpl : Template) (oEngine : RV) : State 
           | .ok attrs => ({ s with objs := updObj s.objs ob.oid attrs }, { rv := CKR.OK })
 
 /-- attributes of the copy before the template is applied: byte strings are encrypted on a public→private copy -/
+def reEnc (wasPriv isPriv : Bool) : AVal → AVal
+  | .bytes v enc => .bytes v (if !wasPriv && isPriv && !v.isEmpty then true else enc)
+  | x => x
+
 def copyAttrs (o : Attrs) (wasPriv isPriv : Bool) : Attrs :=
-  o.map fun e => match e.2 with
-    | .bytes v enc => (e.1, .bytes v (if !wasPriv && isPriv && !v.isEmpty then true else enc))
-    | x => (e.1, x)
+  o.map fun e => (e.1, reEnc wasPriv isPriv e.2)
 
 def stepCopy (s : State) (h o : Nat) (tpl : Template) (oEngine : RV) : State × Resp :=
   match sessTok s h with
